@@ -25,6 +25,25 @@ pub enum Op {
   Fork,
   /// make another live object (index modulo their number) the current one
   Switch(u8),
+  /// `n` mutating calls written compactly: call k is an insertion at the start (k even) or at the end of the
+  /// inner text (k odd) - or beyond it when `seed` is odd - with content "<k mod 10>" and enforce (k + seed) mod 3
+  Bulk(u32, u16),
+}
+
+fn expand(ops: &[Op], text_len: usize) -> Vec<Op> {
+  let mut out = vec![];
+  for op in ops {
+    match op {
+      Op::Bulk(n, seed) => {
+        for k in 0..*n {
+          let p = if k % 2 == 0 { 0 } else { text_len as u32 + if seed % 2 == 1 { 2 } else { 0 } };
+          out.push(Op::Mut(Repl { start: p, end: p, content: format!("{}", k % 10), name: None, enforce: ((k + *seed as u32) % 3) as u8 }));
+        }
+      }
+      o => out.push(o.clone()),
+    }
+  }
+  out
 }
 
 #[derive(Clone, Debug, Serialize, Deserialize)]
@@ -95,6 +114,21 @@ fn strategy_monotone() -> BoxedStrategy<Case> {
       // stable: ties keep their generated order (enforce values in any order)
       repls.sort_by_key(|r| (r.start, r.end));
       let mut ops: Vec<Op> = repls.into_iter().map(Op::Mut).collect();
+      ops.extend(obs.into_iter().map(Op::Obs));
+      Case { inner, ops }
+    })
+    .boxed()
+}
+
+/// more than 65 536 recorded replacements (counters and indices of 16 bits are too small), then a few more
+/// ordinary ones and observers
+fn strategy_bulk() -> BoxedStrategy<Case> {
+  let cfg = inner_cfg();
+  (tree(cfg), 65_530u32..66_200, any::<u16>(), vec(any::<u16>(), 1..=3), vec(abs_repl(cfg), 0..=4), vec(0u8..OBSERVERS.len() as u8, 1..=2))
+    .prop_map(move |(inner, n, seed, pool, abs, obs)| {
+      let t = model_text(&inner);
+      let mut ops = vec![Op::Bulk(n, seed)];
+      ops.extend(abs.iter().map(|a| Op::Mut(concretize_repls(&t, &pool, std::slice::from_ref(a), false).pop().unwrap())));
       ops.extend(obs.into_iter().map(Op::Obs));
       Case { inner, ops }
     })
@@ -241,7 +275,7 @@ impl Prop for C05 {
   type Case = Case;
   const ID: &'static str = "C05";
   fn rule(&self) -> String {
-    "inner source: tree of depth<=1 over Raw*/Original leaves with 1-4 byte UTF-8 text; history of <=12 ops (second leg: 22-48 ops over <=2 cut points; third leg: 190-280 ops over <=3 cut points; fourth leg: 66-140 replacements recorded in ascending (start, end) order): \
+    "inner source: tree of depth<=1 over Raw*/Original leaves with 1-4 byte UTF-8 text; history of <=12 ops (second leg: 22-48 ops over <=2 cut points; third leg: 190-280 ops over <=3 cut points; fourth leg: 66-140 replacements recorded in ascending (start, end) order; fifth leg: more than 65 536 insertions at the two ends): \
      replace/insert/replace_with_enforce/insert_with_enforce with positions from a pool of <=5 char-boundary cut \
      points or beyond the end (up to u32::MAX), interleaved with 13 kinds of observer and with fork (clone the current object, keep both alive, up to 4) / switch \
      (continue on another live object); after every observer the \
@@ -254,6 +288,7 @@ impl Prop for C05 {
       Leg { name: "histories", source: Cases::Generated(Box::new(strategy), 500_000, 6_000_000) },
       Leg { name: "long histories (>20 replacements, colliding keys)", source: Cases::Generated(Box::new(strategy_long), 100_000, 1_500_000) },
       Leg { name: "66-140 replacements recorded in ascending (start, end) order, all enforce values", source: Cases::Generated(Box::new(strategy_monotone), 20_000, 300_000) },
+      Leg { name: "more than 65 536 replacements", source: Cases::Generated(Box::new(strategy_bulk), 24, 200) },
       Leg { name: "very long histories (>128 replacements, colliding keys)", source: Cases::Generated(Box::new(strategy_very_long), 6_000, 80_000) },
     ]
   }
@@ -270,7 +305,8 @@ impl Prop for C05 {
       // live objects (the first one and its clones), each with the mutating calls it has received
       let mut objs: Vec<(ReplaceSource<BoxSource>, Vec<Repl>)> = vec![(ReplaceSource::new(build(&case.inner)), vec![])];
       let mut cur = 0usize;
-      for op in &case.ops {
+      let expanded = expand(&case.ops, text.len());
+      for op in &expanded {
         match op {
           Op::Mut(r) => {
             apply_repl(&mut objs[cur].0, r);
@@ -288,6 +324,7 @@ impl Prop for C05 {
             }
           }
           Op::Switch(k) => cur = *k as usize % objs.len(),
+          Op::Bulk(..) => unreachable!("expanded"),
         }
       }
       // every live object still answers like the model of its own calls, and still holds its inner source
@@ -356,6 +393,7 @@ impl Prop for C05 {
         .class(beyond, "position beyond the end")
         .class(muts.len() > 20, "more than 20 replacements")
         .class(muts.len() > 128, "more than 128 replacements")
+        .class(case.ops.iter().any(|o| matches!(o, Op::Bulk(n, _) if *n > 65_536)), "more than 65 536 replacements")
         .class(
           {
             // a clone made, then a mutation, an observation, a switch and another observation
